@@ -139,7 +139,10 @@ Section Post.
   Definition post_endpoint (s : svc) (e e' : endpoint) : Prop :=
     e_method e' <> "" /\ (0 < e_timeout e')%Z /\ (1 <= e_cc e')%Z /\
     Forall canonical (e_hdrs e') /\
-    Forall2 (post_backend (declared s e)) (e_backends e) (e_backends e').
+    Forall2 (post_backend (declared s e)) (e_backends e) (e_backends e') /\
+    (* the decoder is usable for the endpoint: a no-op endpoint (it renders only the raw
+       answer of its backend) has a backend with the no-op decoder *)
+    (eff_enc s e = noop -> Forall (fun b' => b_dec b' = DNoop) (e_backends e')).
 End Post.
 
 (* ------------------------------------------------------------------------------------ *)
@@ -189,6 +192,7 @@ Fixpoint forallb2 {A B} (f : A -> B -> bool) (l : list A) (m : list B) : bool :=
   | _, _ => false
   end.
 
+Definition is_dnoop (d : decoder) : bool := match d with DNoop => true | _ => false end.
 Definition is_dnil (d : decoder) : bool := match d with DNil => true | _ => false end.
 Definition is_kpanic (k : fkind) : bool := match k with KPanic => true | _ => false end.
 Definition canonical_b (h : string) : bool := str_eqb (canon_header h) h.
@@ -217,7 +221,8 @@ Section Oracle.
     negb (str_eqb (oe_method o) "") && (0 <? oe_timeout o)%Z && (1 <=? oe_cc o)%Z &&
     forallb canonical_b (oe_hdrs o) &&
     forallb2 (post_backend_b (declared s e)) (e_backends e) (oe_backends o) &&
-    negb (is_kpanic (oe_factory o)).
+    negb (is_kpanic (oe_factory o)) &&
+    (negb (str_eqb (eff_enc s e) noop) || forallb (fun ob => is_dnoop (ob_dec ob)) (oe_backends o)).
 
   Definition post_agent_backend_b (b : backend) (o : bobs) : bool :=
     negb (str_eqb (ob_method o) "") && (0 <? ob_timeout o)%Z && negb (is_dnil (ob_dec o)) &&
@@ -250,7 +255,8 @@ Definition eobs_ok (clean_host : string -> option string) (s : svc) (e : endpoin
   oe_method oe <> "" /\ (0 < oe_timeout oe)%Z /\ (1 <= oe_cc oe)%Z /\
   Forall canonical (oe_hdrs oe) /\
   Forall2 (bobs_ok clean_host (declared s e)) (e_backends e) (oe_backends oe) /\
-  oe_factory oe <> KPanic.
+  oe_factory oe <> KPanic /\
+  (eff_enc s e = noop -> Forall (fun ob => ob_dec ob = DNoop) (oe_backends oe)).
 Definition abobs_ok (clean_host : string -> option string) (b : backend) (ob : bobs) : Prop :=
   ob_method ob <> "" /\ (0 < ob_timeout ob)%Z /\ ob_dec ob <> DNil /\
   (b_nosan b = false -> Forall (sanitised clean_host) (ob_host ob)) /\ ob_host ob <> [].
